@@ -465,7 +465,17 @@ func classifyDryRunDiff(d string) string {
 type C14Scenario struct {
 	Sync SyncScenario `json:"sync"` // Arr is ignored: all arrangements are run
 	Arrs []string     `json:"arrs"`
+	// Wide: the option set contains options the client accepts but the
+	// reference model does not describe (-v, -H, -u, -d, --progress, --info,
+	// --debug, ...). Only the arrangement-independence half of the property is
+	// judged: every arrangement ends the same way (all succeed with the same
+	// destination, or all refuse), none hangs, crashes or desynchronises.
+	Wide bool `json:"wide,omitempty"`
 }
+
+// options the client's parser accepts that lie outside the reference model
+var c14WideOpts = []string{"-v", "-vv", "-vvv", "--progress", "-H", "--hard-links", "-u", "--update", "-d", "--dirs", "--no-r", "--no-dirs",
+	"--info=NAME", "--info=FLIST2", "--debug=FLIST", "--debug=RECV,SEND", "--no-motd", "--motd", "--no-c", "--no-H", "--no-v", "--no-progress", "--contimeout=5"}
 
 type c14 struct{}
 
@@ -524,7 +534,14 @@ func (c14) Generate(seed uint64, tier string, index int) any {
 		sc.Opts = append(sc.Opts, "--exclude="+path.Base(string(e.Path)))
 	}
 	sc.Tr = g.TransportFor(12, 2*treeBytes(&sc.Src)+treeBytes(&sc.Dst))
-	return &C14Scenario{Sync: sc, Arrs: []string{"A1", "A2", "A3p", "A3s", "A4"}}
+	out := &C14Scenario{Sync: sc, Arrs: []string{"A1", "A2", "A3p", "A3s", "A4"}}
+	if g.R.Intn(4) == 0 {
+		out.Wide = true
+		for i := 0; i < 1+g.R.Intn(2); i++ {
+			out.Sync.Opts = append(out.Sync.Opts, c14WideOpts[g.R.Intn(len(c14WideOpts))])
+		}
+	}
+	return out
 }
 
 func (c14) Run(t *testing.T, scenario any, job *Job, res *Result) {
@@ -551,6 +568,10 @@ func (c14) Run(t *testing.T, scenario any, job *Job, res *Result) {
 	}
 	var first fstree.Snap
 	firstArr := ""
+	if sc.Wide {
+		c14Wide(t, sc, lay, fields, res)
+		return
+	}
 	for _, arr := range sc.Arrs {
 		run := sc.Sync
 		run.Arr = arr
@@ -589,6 +610,122 @@ func (c14) Run(t *testing.T, scenario any, job *Job, res *Result) {
 	res.Probe("arrangement_runs", len(sc.Arrs))
 	res.NonTrivial = len(sc.Arrs) >= 2
 	res.Sample = map[string]any{"opts": sc.Sync.Opts, "arrs": sc.Arrs, "src_entries": len(sc.Sync.Src.Entries), "dst_entries": len(sc.Sync.Dst.Entries)}
+}
+
+// c14Wide judges option sets outside the reference model by arrangement
+// independence alone.
+func c14Wide(t *testing.T, sc *C14Scenario, lay Layout, fields []string, res *Result) {
+	type outcome struct {
+		arr  string
+		ok   bool
+		err  string
+		tree fstree.Snap
+	}
+	var outs []outcome
+	for _, arr := range sc.Arrs {
+		run := sc.Sync
+		run.Arr = arr
+		out, err := semRun(t, &run, lay, SessionHooks{})
+		if err != nil {
+			res.Invalid = err.Error()
+			return
+		}
+		res.AddSession(out.S)
+		s := out.S
+		prefix := "[" + arr + "] opts=" + strings.Join(sc.Sync.Opts, " ") + ": "
+		if s.Harness != "" {
+			res.Inconclusive = prefix + s.Harness
+			return
+		}
+		switch {
+		case s.Panic != "":
+			res.Violate("desync-panic", "wide:"+arr+":"+panicSignature(s.Panic), prefix+s.Panic)
+		case s.Outcome == kernel.Deadlock:
+			res.Violate("desync-deadlock", "wide:"+arr+":deadlock", prefix+"no operation enabled and session not finished: "+s.Pending+
+				"\nclient stderr: "+tail(s.ClientStderr, 800)+"\nserver stderr: "+tail(s.ServerStderr, 800))
+		case s.Outcome != kernel.Finished:
+			res.Inconclusive = prefix + "outcome " + s.Outcome.String()
+		}
+		if res.Violation != nil || res.Inconclusive != "" {
+			sc.Arrs = []string{arr}
+			setTape(&sc.Sync.Tr, s)
+			return
+		}
+		o := outcome{arr: arr, ok: s.ClientErr == nil && s.ServerErr == nil, tree: out.After}
+		if !o.ok {
+			o.err = "client: " + ErrString(s.ClientErr) + "; server: " + ErrString(s.ServerErr)
+		}
+		outs = append(outs, o)
+	}
+	if len(outs) < 2 {
+		return
+	}
+	nOK := 0
+	for _, o := range outs {
+		if o.ok {
+			nOK++
+		}
+	}
+	res.Probe("wide_option_sets", 1)
+	if nOK == 0 {
+		res.Probe("wide_refused_everywhere", 1)
+		return
+	}
+	if nOK != len(outs) {
+		var okArr, badArr, badErr string
+		for _, o := range outs {
+			if o.ok && okArr == "" {
+				okArr = o.arr
+			}
+			if !o.ok && badArr == "" {
+				badArr, badErr = o.arr, o.err
+			}
+		}
+		res.Violate("arrangements-differ", "wide-outcome:"+wideOptTag(sc.Sync.Opts), fmt.Sprintf("opts=%v: accepted and carried out in %s, but fails in %s: %s", sc.Sync.Opts, okArr, badArr, badErr))
+		sc.Arrs = []string{okArr, badArr}
+		return
+	}
+	for _, o := range outs[1:] {
+		if d := fstree.Diff(outs[0].tree, o.tree, fields...); len(d) > 0 {
+			res.Violate("arrangements-differ", "wide-differs:"+wideOptTag(sc.Sync.Opts), fmt.Sprintf("opts=%v: destination after %s differs from destination after %s: %v", sc.Sync.Opts, o.arr, outs[0].arr, d))
+			sc.Arrs = []string{outs[0].arr, o.arr}
+			return
+		}
+	}
+	res.NonTrivial = true
+	res.Sample = map[string]any{"opts": sc.Sync.Opts, "arrs": sc.Arrs, "wide": true}
+}
+
+// wideOptTag names the wide options present (sorted, without values).
+func wideOptTag(opts []string) string {
+	seen := map[string]bool{}
+	for _, o := range opts {
+		for _, w := range c14WideOpts {
+			if o == w {
+				n := strings.TrimLeft(o, "-")
+				if i := strings.IndexByte(n, '='); i >= 0 {
+					n = n[:i]
+				}
+				switch n {
+				case "H":
+					n = "hard-links"
+				case "u":
+					n = "update"
+				case "d":
+					n = "dirs"
+				case "vv", "vvv":
+					n = "v"
+				}
+				seen[n] = true
+			}
+		}
+	}
+	var l []string
+	for n := range seen {
+		l = append(l, n)
+	}
+	sort.Strings(l)
+	return strings.Join(l, "+")
 }
 
 func optClass(o model.Opts) string {
